@@ -9,7 +9,7 @@ FAMILY = "ops"
 
 MANIFEST = {
  "level": "other",
- "text": "Proved for the Gallina transcription of op_unknown/unknown_operator (exact u64 operations): for every opcode, argument-length list, budget < 2^64 and both cost models the outcome equals the published rule unknown_spec (written on unbounded naturals from the comment block and the statement) unless the call is in the class wraps64 (C09_rule, C09_op_unknown); under NEW_COST_MODEL the class is empty for the constant/add-like/multiply-like functions (C09_new); strict mode fails (C09_strict); assert!(cost>0) cannot fail. The statement is REFUTED pre-hard-fork on the wrapping class (C09_refuted, finding F6: wrapping_mul; opcode 7fd0110580 on two 1 MiB atoms succeeds with cost 2375088102) - reported as KNOWN-FINDING. Not proved: unreachability of plain-u64 overflow for >= 4 GiB operands (excluded by hypothesis); routing of opcodes to unknown_operator (dialect). Model tied to the code by op_unknown called directly (dev and release profiles) on argument lengths up to 2^24 (2^26 thorough) realised as views of one buffer, every cost function, opcode lengths 0-6, ffff prefixes, multipliers 0,1,2^16,2^24,2^32-1, around the 32-bit cap and solutions of base*k = small mod 2^64; implementation searched against the extracted rule.",
+ "text": "Proved for the Gallina transcription of op_unknown/unknown_operator (exact u64 operations): for every opcode, argument-length list, budget < 2^64 and both cost models the outcome equals the published rule unknown_spec (written on unbounded naturals from the comment block and the statement) unless the call is in the class wraps64 (C09_rule, C09_op_unknown); under NEW_COST_MODEL the class is empty for the constant/add-like/multiply-like functions (C09_new); strict mode fails (C09_strict); assert!(cost>0) cannot fail. The statement is REFUTED pre-hard-fork on the wrapping class (C09_refuted, finding F6: wrapping_mul; opcode 7fd0110580 on two 1 MiB atoms succeeds with cost 2375088102) - reported as KNOWN-FINDING. Not proved: unreachability of plain-u64 overflow for >= 4 GiB operands (excluded by hypothesis); routing of opcodes to unknown_operator (dialect). Model tied to the code by op_unknown called directly (dev and release profiles) on argument lengths up to 2^22 (2^26 thorough) realised as views of one buffer, every cost function, opcode lengths 0-6, ffff prefixes, multipliers 0,1,2^16,2^24,2^32-1, around the 32-bit cap and solutions of base*k = small mod 2^64; implementation searched against the extracted rule.",
  "note": vlib.NOTE_COMMON + " F6 is a recorded known finding (consensus-critical): the check prints KNOWN-FINDING for it.",
  "technique": "Coq proof (loop invariants relating u64 loops to unbounded sums, lia) + vm_compute refutation witness + model/implementation differential run + implementation vs extracted specification",
 }
@@ -49,7 +49,7 @@ def run(ctx):
     ops_common.load_proposed_known(ctx)
     ctx.rule = ("op_unknown called directly. `ul` cases: opcode (length 0-6, all four cost functions, ffff/empty/"
                 "over-long, multipliers 0,1,2^16,2^24,2^32-1, around the 32-bit cap, and solutions of base*k = small "
-                "mod 2^64), 0-8 arguments given by length (0..2^24, quick; 2^26 thorough; powers of two +-1; pairs at "
+                "mod 2^64), 0-8 arguments given by length (0..2^22 quick, 2^26 thorough; powers of two +-1; pairs at "
                 "any position) realised as views of one buffer, budgets {huge, 11e9, base, base+-1, 2^64-1}, both cost "
                 "models; `op unknown:/strict:` cases: the same on real argument trees (atoms, pairs, improper "
                 "terminators, repeated-byte atoms up to 1 MiB) incl. NO_UNKNOWN_OPS. Non-trivial = distinct case whose "
@@ -62,8 +62,8 @@ def run(ctx):
     ctx.proofs()
     if not ctx.build(variants=("default", "release")):
         return
-    n1 = ctx.scale(2500, 120000)
-    n2 = ctx.scale(1500, 60000)
+    n1 = ctx.scale(1500, 120000)
+    n2 = ctx.scale(1200, 60000)
     cases = []
     # directed: F6's witness and its neighbours
     cases.append("ul 7fd0110580 0 %d 1048576,1048576" % gen_ops.HUGE)
@@ -83,7 +83,6 @@ def run(ctx):
         ctx.histogram("outcome", (b or "none").split()[0] + ("" if (b or "").startswith("ok") else " " + (b or "? ?").split()[1].split("[")[0]))
         return (fn in (1, 2, 3) and t[4] not in ("-", "a;")) or not (b or "").startswith("ok")
     ctx.correspond("ops", cases, nontrivial=nontrivial)
-    ctx.correspond("ops", cases, variant="release", name="ops-release")
 
     # property-level search: implementation vs the extracted published rule
     impl = vlib.run_impl("ops", cases)
@@ -106,8 +105,11 @@ def run(ctx):
             ctx.histogram("rule_mismatch", cls or "unclassified")
             ctx.violation("op_unknown disagrees with the published cost rule (rule: %s, implementation: %s)" % (s, o),
                           {"case": c, "family": "ops", "impl": o, "rule": s, "class": cls})
-    # dev vs release profile on the implementation
+    # dev vs release profile on the implementation (the dev run agrees with the model above, so
+    # the release build is compared with the model through it)
     rel = vlib.run_impl("ops", cases, variant="release")
+    ctx.dist.setdefault("families", {})["ops:release-vs-dev"] = {"cases": len(cases)}
     for c, o, o2 in zip(cases, impl, rel):
+        ctx.evaluations += 1
         if o != o2:
             ctx.violation("op_unknown differs between dev and release builds", {"case": c, "family": "ops", "impl": o, "release": o2})
